@@ -144,6 +144,17 @@ add("C13",
     "growth budget keeps coordinates within +-100 initial cells (absolute 1e-12 alignment tolerance); histories are "
     "data interpreted by the check (equivalent to a rule-based state machine, but replayable as JSON).")
 
+add("C14",
+    "Hypothesis-generated candidate boxes with stated defects; model-based histories (assign, transform, select, "
+    "extract, JSON/HDF5 reload) with an index-space model and the invariant after every step; constructed alignment truth",
+    "Generated-input search: valid boxes must be accepted and carry the mesh's names/units, boxes shifted/stretched by "
+    "a fraction of a cell or leaving the region must be rejected with the previous subregions kept; histories of up to "
+    "6 steps check after every step that every held subregion is an integer index box inside [0, n] with the mesh's "
+    "metadata, that plane/range selections keep exactly the overlapping subregions clipped to the kept cells, that "
+    "mesh[name] has exactly the subregion as region and the parent's cell, and that JSON/HDF5 reload returns names in "
+    "order and identical corners; is_aligned is compared with the constructed truth in both argument orders.",
+    "scales 1e-9..1, bounded coordinates (absolute 1e-12 alignment tolerance); defects are at least 5% of a cell.")
+
 PENDING = {}
 
 
